@@ -706,3 +706,76 @@ def r_fresh_declarations(ctx, only=None):
         else:
             msg = "%d return statement(s), some conditional or in a loop: an existing object can be handed back instead of a new one" % len(rets)
         ctx.ob("R-NEWOBJ", "PEP.%s" % name, ok, msg, loc(fn, fn))
+
+
+def r_heurcall(ctx):
+    """What the solve root hands to the dimension-reduction step: the optimum of the first solve and the tolerance as given, the identity for
+    'trace', the inverse of (thresholded Gram + regularisation * identity) for 'logdet'."""
+    repo = ctx.repo
+    root = common.solve_root(repo)
+    v = _first_solve_value(root)
+    ps = params_of(root)
+    tol = [p for p in ps if "tol" in p]
+    reg = [p for p in ps if "regul" in p]
+    prep = [c for c in ast.walk(root) if isinstance(c, ast.Call) and call_name(c) == "prepare_heuristic"]
+    ok = len(prep) == 1 and len(tol) == 1 and [dotted(a) for a in prep[0].args] == [v, tol[0]] and not prep[0].keywords
+    ctx.ob("R-HEURCALL", "PEP.%s::prepare_heuristic(optimum, tolerance)" % root.name, ok,
+           "the heuristic constraint is built from the first optimum and the user's tolerance" if ok else
+           "prepare_heuristic receives (%s), expected (%s, %s)" % (", ".join(src(a) for a in prep[0].args) if prep else "nothing", v, tol[0] if tol else "?"),
+           loc(root, prep[0] if prep else root))
+    heur = [c for c in ast.walk(root) if isinstance(c, ast.Call) and call_name(c) == "heuristic"]
+    for c in heur:
+        a = c.args[0] if c.args else None
+        if a is None:
+            continue
+        if isinstance(a, ast.Call) and call_name(a) in ("identity", "eye"):
+            ok = src(a.args[0]) == "Point.counter"
+            ctx.ob("R-HEURCALL", "PEP.%s::trace weight" % root.name, ok, "the trace heuristic minimises <I, G>" if ok else "the trace heuristic uses `%s`" % src(a), loc(root, c))
+        elif isinstance(a, ast.Name):
+            d = [s0 for s0 in flow.stmts_of(root, ast.Assign) if dotted(s0.targets[0]) == a.id]
+            okw = False
+            if len(d) == 1 and isinstance(d[0].value, ast.Call) and call_name(d[0].value) == "inv" and d[0].value.args:
+                inner = d[0].value.args[0]
+                if isinstance(inner, ast.BinOp) and isinstance(inner.op, ast.Add):
+                    parts = [inner.left, inner.right]
+                    mat = [x for x in parts if isinstance(x, ast.Name)]
+                    regterm = [x for x in parts if isinstance(x, ast.BinOp) and isinstance(x.op, ast.Mult)]
+                    okw = len(mat) == 1 and len(regterm) == 1 and len(reg) == 1 and any(dotted(y) == reg[0] for y in (regterm[0].left, regterm[0].right)) \
+                        and any(isinstance(y, ast.Call) and call_name(y) in ("eye", "identity") and src(y.args[0]) == "Point.counter" for y in (regterm[0].left, regterm[0].right))
+            ctx.ob("R-HEURCALL", "PEP.%s::logdet weight" % root.name, okw,
+                   "the logdet heuristic minimises <(G + regularisation I)^-1, G>" if okw else "the logdet weight is `%s`" % (src(d[0].value) if d else a.id), loc(root, c))
+        else:
+            ctx.ob("R-HEURCALL", "PEP.%s::heuristic weight %s" % (root.name, anon_src_(a)), False, "the heuristic weight `%s` is neither the identity nor the regularised inverse" % src(a), loc(root, c))
+
+
+def anon_src_(a):
+    from ..model import anon_src
+    return anon_src(a)
+
+
+def r_declare(ctx):
+    """Every declaration method stores what it is given exactly once on every completing path (declaration side of 'exactly as often as declared')."""
+    repo = ctx.repo
+    conts = containers(repo)
+    n = 0
+    for (cname, attr), kind in sorted(conts.items()):
+        if "class" in attr:
+            continue           # class lists are filled by the generators / hooks (R-ALIGN, R-FORMULA)
+        c = repo.cls(cname)
+        for fn in c.methods.values():
+            apps = [x for x in ast.walk(fn) if isinstance(x, ast.Call) and call_name(x) == "append" and dotted(x.func.value) == "self." + attr]
+            if not apps or fn.name.startswith("_") or fn.name == "add_partition_constraints":
+                continue
+            n += 1
+            pc = flow.path_counts(fn.body, lambda nd: isinstance(nd, ast.Call) and call_name(nd) == "append" and dotted(nd.func.value) == "self." + attr)
+            normal = pc.get("next", set()) | pc.get("return", set())
+            ok = normal == {1}
+            rebinds = [s0 for s0 in flow.stmts_of(fn, ast.Assign) if any(dotted(t) == "self." + attr for t in s0.targets)]
+            if rebinds:
+                ok = False
+            ctx.ob("R-DECLARE", "%s.%s::stores into %s" % (cname, fn.name, attr), ok,
+                   "what is declared is stored exactly once on every path" if ok else
+                   ("the declaration method rebinds `self.%s`" % attr if rebinds else
+                    "a declared %s is stored %s times depending on the path: it can be silently dropped (or duplicated)" % (kind, sorted(normal))), loc(fn, fn))
+    ctx.count("declaration methods", n)
+    return n
